@@ -157,6 +157,10 @@ def memoryOkB (p : PoolObs) : Bool :=
   p.cons == isum (p.A.map (fun c => (c.mem : Int))) &&
   decide (p.cons ≤ (p.capr : Int))
 
+/-- C03, "a container's allocation is returned in the tick it completes": at a tick boundary every container that still holds an allocation as a running
+container has an operator left to run -/
+def unfinishedB (p : PoolObs) : Bool := p.A.all (fun c => decide (c.idx < c.ops.length))
+
 def poolCids (p : PoolObs) : List Nat := p.A.map (·.cid) ++ p.S.map (·.cid)
 
 structure ChkState where
@@ -201,6 +205,7 @@ def chkOversell (t : ETrace) (err : Option String) (w : WorldObs) (s : ChkState)
 def chkC03 (t : ETrace) (err : Option String) (w : WorldObs) (s : ChkState) : ChkState :=
   let npools := s.prev.pools.length
   let s1 : ChkState := s.req (w.pools.all (conservedB t.cfg.overcommit)) "conserved-nonneg"
+  let s1 : ChkState := if err.isNone then s1.req (w.pools.all unfinishedB) "returned-when-finished" else s1
   let s2 : ChkState := s1.req (w.pools.length == npools &&
       (List.range npools).all (fun i => (w.pools.getD i default).capc == (s.prev.pools.getD i default).capc &&
                                         (w.pools.getD i default).capr == (s.prev.pools.getD i default).capr)) "capacity-constant"
@@ -209,6 +214,10 @@ def chkC03 (t : ETrace) (err : Option String) (w : WorldObs) (s : ChkState) : Ch
 def chkC09 (err : Option String) (state : Option WorldObs) (res : List ResObs) (s : ChkState) : ChkState :=
   let npools := s.prev.pools.length
   let s0 : ChkState := s.req (!(s.pendA.any (fun a => decide (a.pool ≥ npools)) || s.pendS.any (fun x => decide (x.1 ≥ npools))) || err.isSome) "unknown-pool-rejected"
+  -- a command naming a pool that does not exist is rejected *before* anything happens: pools, containers and operator states are as they were
+  let s0 : ChkState := match err, state with
+    | some "unknownPool", some w => s0.req (w.st == s.prev.st && w.pools.map (fun p => (p.ac, p.ar, p.A, p.S, p.D)) == s.prev.pools.map (fun p => (p.ac, p.ar, p.A, p.S, p.D))) "rejected-before-anything-happens"
+    | _, _ => s0
   let s0 : ChkState := if err.isSome then { s0 with tainted := true } else s0
   match err, state, s0.tainted with
   | none, some w, false =>
